@@ -1,6 +1,15 @@
 """C04: hostile input never panics."""
 BIN = "c04"
 
+def PREGEN(tier, seed):
+    # model-generated packets of every type (signatures with every subpacket grammar most of all): seeds for the field-extremes sweep
+    th = tier == "thorough"
+    out = []
+    for t, n in [(2, 60 if th else 16), (1, 8 if th else 3), (3, 8 if th else 3), (4, 6 if th else 2), (5, 8 if th else 2), (6, 8 if th else 2), (7, 6 if th else 2),
+                 (14, 6 if th else 2), (13, 3 if th else 1), (17, 8 if th else 3), (8, 3 if th else 1), (11, 3 if th else 1), (18, 3 if th else 1)]:
+        out += ["gen %d %d" % (t, seed * 104729 + i) for i in range(n)]
+    return out
+
 def expected(case, mout):
     op = case.get("op")
     if op in ("aeadsetup", "kwlen"):
@@ -18,7 +27,9 @@ RULE = ("every case = one call (or one sweep over all public entry points) on it
         "wrapped keys of every length 0..24 that no honest sender produces; 2: SKESK v4 around chosen plaintext (vs the model), every value of every one-octet field of SKESK v4/v6, S2K "
         "(type, hash, count, Argon2 t/p/m) and SEIPD v2 headers as whole messages; 3: SEIPD v2 (cipher, AEAD mode 0..255, chunk size) with the session key in hand (vs the model's set-up); "
         "4: every value of the usage / cipher / S2K type / hash / count octets of a locked secret key, unlocked with its password; 5: byte-level mutations of fixtures through PacketParser, "
-        "key / signature / message parsing, decrypt, decompress, read, verify, dearmor, cleartext. non-trivial = cases that returned")
+        "key / signature / message parsing, decrypt, decompress, read, verify, dearmor, cleartext; 6: every two- and four-octet window (ffff, 8000, fffe; ffffffff, 80000000, 00010000; "
+        "pairs ffff 0001 / 8000 8000 / 0001 ffff) of signatures written by hand with one subpacket of every assigned type (hashed / unhashed, v4 / v6, embedded signature included) and of "
+        "model-generated packets of every type (the C05 generator), through the packet-level entry points. non-trivial = cases that returned")
 TRUSTED = [
     "model file: coq/theories/Safe/Checked.v (the post-decryption plausibility logic with Rust's panicking operations explicit); theorems coq/theories/Props/C04.v",
     "only that logic is modelled; for everything else (parsers, readers, decompression, the crypto crates) C04 rests on the generated artifacts and the watchdog, which is testing, not proof",
